@@ -34,7 +34,7 @@ impl<'src: 'run, 'run> AssignmentResolver<'src, 'run> {
       for variable in assignment.value.variables() {
         let name = variable.lexeme();
 
-        if self.evaluated.contains(name) || constants().contains_key(name) {
+        if self.evaluated.contains(name) {
           continue;
         }
 
@@ -50,7 +50,7 @@ impl<'src: 'run, 'run> AssignmentResolver<'src, 'run> {
           );
         } else if self.assignments.contains_key(name) {
           self.resolve_assignment(name)?;
-        } else {
+        } else if !constants().contains_key(name) {
           return Err(variable.error(UndefinedVariable { variable: name }));
         }
       }
